@@ -1,6 +1,6 @@
 (* Css/CounterProofs.v -- the model of counters.go (Css/Counters.v) meets
    CSS Counter Styles 3 (Css/CounterSpec.v).  Part 1: the six algorithms. *)
-From Verif Require Import Base.GoSem Css.Counters Css.CounterSpec.
+From Verif Require Import Base.GoSem Css.Counters Css.CounterSpec Css.CounterAbs.
 From Coq Require Import List ZArith NArith Bool Lia ZifyBool ZifyNat ZifyN.
 Import ListNotations.
 Open Scope Z_scope.
@@ -165,7 +165,7 @@ Lemma alphabetic_loop_spec : forall fuel syms L value acc,
              Forall (fun d => 1 <= d <= L) ds /\ digits_value L ds = value /\ (0 < value -> ds <> []).
 Proof.
   induction fuel as [|f IH]; intros syms L value acc HL H2 Hv Hf.
-  - exfalso. simpl in Hf. rewrite Z.pow_neg_r in Hf by lia. lia.
+  - exfalso. change (2 ^ (Z.of_nat 0 - 1)) with 0 in Hf. lia.
   - cbn [alphabetic_loop].
     destruct (Z.eqb_spec value 0) as [E|E].
     + exists []. subst value. repeat split; auto. intros; lia.
@@ -261,7 +261,7 @@ Lemma numeric_loop_spec : forall fuel syms L value acc,
              (0 < value -> ds <> [] /\ hd 0 ds <> 0).
 Proof.
   induction fuel as [|f IH]; intros syms L value acc HL H2 Hv Hf.
-  - exfalso. simpl in Hf. rewrite Z.pow_neg_r in Hf by lia. lia.
+  - exfalso. change (2 ^ (Z.of_nat 0 - 1)) with 0 in Hf. lia.
   - cbn [numeric_loop].
     destruct (Z.eqb_spec value 0) as [E|E].
     + exists []. subst value. repeat split; auto; intros; lia.
@@ -297,4 +297,181 @@ Proof.
               ** rewrite (E0 Eq). simpl. pose proof (Z.div_mod value L). lia.
               ** destruct (E4 ltac:(lia)) as [Hne Hhd].
                  destruct ds as [|x r]; [contradiction|]. simpl. simpl in Hhd. exact Hhd.
+Qed.
+
+(* positional representations without leading zero are unique *)
+Lemma digits_value_pos L ds :
+  1 <= L -> Forall (fun d => 0 <= d) ds -> ds <> [] -> hd 0 ds <> 0 -> 1 <= digits_value L ds.
+Proof.
+  intros HL HF Hne Hhd. destruct ds as [|x r]; [contradiction|].
+  inversion HF; subst. simpl in Hhd. unfold digits_value. simpl.
+  apply fold_digits_pos; [lia|assumption|lia].
+Qed.
+
+Lemma hd_app_ne {A} (d : A) l x : l <> [] -> hd d (l ++ [x]) = hd d l.
+Proof. destruct l; [contradiction|reflexivity]. Qed.
+
+Lemma numeric_digits_unique_pos L : 2 <= L -> forall ds ds',
+  Forall (fun d => 0 <= d < L) ds -> Forall (fun d => 0 <= d < L) ds' ->
+  (ds = [] \/ hd 0 ds <> 0) -> (ds' = [] \/ hd 0 ds' <> 0) ->
+  digits_value L ds = digits_value L ds' -> ds = ds'.
+Proof.
+  intros HL.
+  assert (Hnn : forall l, Forall (fun d => 0 <= d < L) l -> Forall (fun d => 0 <= d) l).
+  { intros l Hl. eapply Forall_impl; [|exact Hl]. simpl. intros; lia. }
+  induction ds as [|d l IH] using rev_ind; intros ds' HF HF' Hc Hc' HV.
+  - destruct ds' as [|x r]; [reflexivity|]. exfalso.
+    destruct Hc' as [Hc'|Hc']; [discriminate|].
+    pose proof (digits_value_pos L (x :: r) ltac:(lia) (Hnn _ HF') ltac:(discriminate) Hc').
+    unfold digits_value in HV at 1. simpl in HV. lia.
+  - destruct ds' as [|d' l' _] using rev_ind.
+    + exfalso. destruct Hc as [Hc|Hc]; [apply app_eq_nil in Hc as [_ Hc]; discriminate|].
+      pose proof (digits_value_pos L (l ++ [d]) ltac:(lia) (Hnn _ HF)
+                    ltac:(intros Hn; apply app_eq_nil in Hn as [_ Hn]; discriminate) Hc).
+      unfold digits_value in HV at 2. simpl in HV. lia.
+    + apply Forall_app in HF as [HF1 HF2]. inversion HF2; subst.
+      apply Forall_app in HF' as [HF1' HF2']. inversion HF2'; subst.
+      rewrite !digits_value_app in HV.
+      assert (Hd : d = d').
+      { assert (Hm : (d - d') mod L = 0).
+        { replace (d - d') with (0 + (digits_value L l' - digits_value L l) * L) by lia.
+          rewrite Z_mod_plus_full. apply Z.mod_0_l. lia. }
+        apply Z.mod_divide in Hm; [|lia]. destruct Hm as [k Hk].
+        assert (k = 0) by nia. lia. }
+      subst d'. f_equal. apply IH; try assumption; [| |nia].
+      * destruct l as [|y t]; [left; reflexivity|right].
+        destruct Hc as [Hc|Hc]; [discriminate|]. exact Hc.
+      * destruct l' as [|y t]; [left; reflexivity|right].
+        destruct Hc' as [Hc'|Hc']; [discriminate|]. exact Hc'.
+Qed.
+
+Theorem numeric_digits_unique L v ds ds' :
+  2 <= L -> numeric_digits L v ds -> numeric_digits L v ds' -> ds = ds'.
+Proof.
+  intros HL (Hne & HF & Hc & HV) (Hne' & HF' & Hc' & HV').
+  assert (Hnn : forall l, Forall (fun d => 0 <= d < L) l -> Forall (fun d => 0 <= d) l).
+  { intros l Hl. eapply Forall_impl; [|exact Hl]. simpl. intros; lia. }
+  destruct Hc as [Hc|Hc], Hc' as [Hc'|Hc'].
+  - apply (numeric_digits_unique_pos L HL); auto. congruence.
+  - exfalso. subst ds'. unfold digits_value in HV'. simpl in HV'. subst v.
+    pose proof (digits_value_pos L ds ltac:(lia) (Hnn _ HF) Hne Hc). lia.
+  - exfalso. subst ds. unfold digits_value in HV. simpl in HV. subst v.
+    pose proof (digits_value_pos L ds' ltac:(lia) (Hnn _ HF') Hne' Hc'). lia.
+  - congruence.
+Qed.
+
+Theorem alphabetic_digits_unique' L v ds ds' :
+  1 <= L -> alphabetic_digits L v ds -> alphabetic_digits L v ds' -> ds = ds'.
+Proof.
+  intros HL (_ & HF & HV) (_ & HF' & HV'). apply (alphabetic_digits_unique L HL); auto. congruence.
+Qed.
+
+Theorem numeric_spec : forall syms v,
+  2 <= zlen syms ->
+  exists ds, numeric syms v = Ok (Some (digits_string (map symbol syms) 0 ds)) /\
+             numeric_digits (zlen syms) (Z.abs v) ds.
+Proof.
+  intros syms v HL. unfold numeric.
+  destruct (Z.ltb_spec (zlen syms) 2); [lia|].
+  destruct (Z.eqb_spec v 0) as [->|Hv].
+  - destruct (index_sym_at 332 syms 0) as (sy & H1 & H2); [lia|].
+    rewrite H1. cbn [bind]. exists [0]. split.
+    + unfold digits_string. simpl. replace (0 - 0) with 0 by lia. rewrite H2, app_nil_r. reflexivity.
+    + split; [discriminate|]. split; [constructor; [lia|constructor]|]. split; [right; reflexivity|reflexivity].
+  - destruct (numeric_loop_spec (digits_fuel (Z.abs v)) syms (zlen syms) (Z.abs v) [] eq_refl HL ltac:(lia)
+                (digits_fuel_ok (Z.abs v) ltac:(lia))) as (ds & E1 & E2 & E3 & _ & E4).
+    exists ds. rewrite E1. cbn [res_map]. rewrite app_nil_r. split; [reflexivity|].
+    destruct (E4 ltac:(lia)) as [Hne Hhd].
+    split; [assumption|]. split; [assumption|]. split; [left; assumption|assumption].
+Qed.
+
+(* ------------------------------------------------------------------ additive (3.1.6) *)
+
+Lemma reps_string_zeros ts : reps_string ts (map (fun _ => 0) ts) = [].
+Proof. induction ts as [|[w s] t IH]; simpl; [reflexivity|assumption]. Qed.
+
+Lemma additive_loop_spec : forall ts v acc,
+  Forall (fun a => 0 <= ad_w a) ts -> 0 < v ->
+  additive_loop ts v acc =
+  Ok (option_map (fun reps => acc ++ reps_string (abs_tuples ts) reps)
+                 (additive_reps (map fst (abs_tuples ts)) v)).
+Proof.
+  induction ts as [|a ts IH]; intros v acc HF Hv; [reflexivity|].
+  inversion HF as [|? ? Hw HF']; subst.
+  cbn [additive_loop abs_tuples map additive_reps fst].
+  destruct ((ad_w a =? 0) || (v <? ad_w a)) eqn:Eg.
+  - rewrite (IH v acc HF' Hv). fold (abs_tuples ts).
+    destruct (additive_reps (map fst (abs_tuples ts)) v); cbn [option_map]; [|reflexivity].
+    simpl. reflexivity.
+  - apply orb_false_iff in Eg as [Eg1 Eg2]. apply Z.eqb_neq in Eg1. apply Z.ltb_ge in Eg2.
+    rewrite go_div_ok by lia. cbn [bind]. rewrite Z.quot_div_nonneg by lia.
+    assert (Hq : 1 <= v / ad_w a) by (apply Z.div_le_lower_bound; lia).
+    rewrite go_repeat_ok by lia. cbn [bind].
+    assert (Hm : v - ad_w a * (v / ad_w a) = v mod ad_w a) by (pose proof (Z.div_mod v (ad_w a)); lia).
+    pose proof (Z.mod_pos_bound v (ad_w a) ltac:(lia)) as Hb.
+    destruct (Z.eqb_spec (v - ad_w a * (v / ad_w a)) 0) as [E0|E0].
+    + cbn [option_map]. fold (abs_tuples ts). simpl.
+      replace (map (fun _ : Z => 0) (map fst (abs_tuples ts))) with (map (fun _ : Z * sstr => 0) (abs_tuples ts))
+        by (rewrite map_map; reflexivity).
+      rewrite reps_string_zeros, app_nil_r. reflexivity.
+    + assert (Hpos : 0 < v - ad_w a * (v / ad_w a)) by lia.
+      rewrite (IH _ _ HF' Hpos). fold (abs_tuples ts).
+      destruct (additive_reps (map fst (abs_tuples ts)) (v - ad_w a * (v / ad_w a))); cbn [option_map]; [|reflexivity].
+      simpl. rewrite <- app_assoc. reflexivity.
+Qed.
+
+Lemma find_abs_tuples ts :
+  option_map snd (find (fun t => fst t =? 0) (abs_tuples ts)) =
+  match find (fun vs => ad_w vs =? 0) ts with Some vs => Some (symbol (ad_s vs)) | None => None end.
+Proof.
+  induction ts as [|a ts IH]; [reflexivity|]. simpl.
+  destruct (ad_w a =? 0); [reflexivity|exact IH].
+Qed.
+
+Theorem additive_spec : forall ts v,
+  Forall (fun a => 0 <= ad_w a) ts -> 0 <= v ->
+  additive ts v = Ok (additive_repr (abs_tuples ts) v).
+Proof.
+  intros ts v HF Hv. unfold additive, additive_repr.
+  destruct (Z.eqb_spec v 0) as [->|Hv0].
+  - rewrite find_abs_tuples. destruct (find _ ts); reflexivity.
+  - destruct (Z.ltb_spec v 0); [lia|].
+    destruct ts as [|a ts]; [reflexivity|].
+    rewrite additive_loop_spec by (assumption || lia).
+    destruct (additive_reps _ v); reflexivity.
+Qed.
+
+(* the weights of the tuples used sum to the value *)
+Fixpoint weighted_sum (ws reps : list Z) : Z :=
+  match ws, reps with
+  | w :: ws', q :: reps' => w * q + weighted_sum ws' reps'
+  | _, _ => 0
+  end.
+
+Lemma weighted_sum_zeros ws : weighted_sum ws (map (fun _ => 0) ws) = 0.
+Proof. induction ws; simpl; lia. Qed.
+
+Theorem additive_sum : forall ws v reps,
+  Forall (fun w => 0 <= w) ws -> 0 < v ->
+  additive_reps ws v = Some reps ->
+  length reps = length ws /\ Forall (fun q => 0 <= q) reps /\ weighted_sum ws reps = v.
+Proof.
+  induction ws as [|w ws IH]; intros v reps HF Hv H; [discriminate|].
+  inversion HF as [|? ? Hw HF']; subst. cbn [additive_reps] in H.
+  destruct ((w =? 0) || (v <? w)) eqn:Eg.
+  - destruct (additive_reps ws v) as [r|] eqn:Er; [|discriminate]. injection H as <-.
+    destruct (IH v r HF' Hv Er) as (H1 & H2 & H3).
+    simpl. repeat split; [lia|constructor; [lia|assumption]|lia].
+  - apply orb_false_iff in Eg as [Eg1 Eg2]. apply Z.eqb_neq in Eg1. apply Z.ltb_ge in Eg2.
+    assert (Hq : 1 <= v / w) by (apply Z.div_le_lower_bound; lia).
+    pose proof (Z.div_mod v w ltac:(lia)) as Hdm.
+    pose proof (Z.mod_pos_bound v w ltac:(lia)) as Hb.
+    destruct (Z.eqb_spec (v - w * (v / w)) 0) as [E0|E0].
+    + injection H as <-. simpl. rewrite map_length, weighted_sum_zeros.
+      split; [reflexivity|]. split; [|lia]. constructor; [lia|].
+      clear. induction ws; simpl; constructor; [lia|assumption].
+    + destruct (additive_reps ws (v - w * (v / w))) as [r|] eqn:Er; [|discriminate]. injection H as <-.
+      assert (Hpos : 0 < v - w * (v / w)) by lia.
+      destruct (IH _ r HF' Hpos Er) as (H1 & H2 & H3).
+      simpl. repeat split; [lia|constructor; [lia|assumption]|lia].
 Qed.
